@@ -997,6 +997,41 @@ fn live_props(tier: &str, seed: u64, threads: usize, out: &str) {
         gen_live::live_case(fl, &format!("r{i}"), &g, &k, root, tg, &script, rng.chance(30))
     });
     extra.insert("random".into(), format!("{nr} loops with random scripts of 1-3 entries on graphs up to 7 nodes"));
+    // rewiring from inside the closure: at one step one edge is added and another removed (degrees stay similar),
+    // every (graph on 3 nodes with <= 2 edges, depth-first kind, root, step, added edge, removed edge) combination
+    let mut jobs: Vec<(usize, usize, usize, usize, usize, usize, usize)> = vec![];
+    for m in 1..=2usize {
+        for idx in 0..gen_search::count_seqs(3, m) {
+            for kind in 0..4usize {
+                for root in 0..3usize {
+                    for step in 0..2usize {
+                        for add in 0..9usize {
+                            for del in 0..9usize {
+                                if quick && (idx + kind + root + step + add + del) % 3 != 0 {
+                                    continue;
+                                }
+                                jobs.push((m, idx, kind, root, step * 9 * 9 + add * 9 + del, 0, 0));
+                            }
+                        }
+                    }
+                }
+            }
+        }
+    }
+    for fl in &all {
+        exec::new_section();
+        let jobs = &jobs;
+        let directed = *fl == "di" || *fl == "sdi";
+        spread(&mut ctxs, jobs.len(), |i| {
+            let (m, idx, kind, root, code, _, _) = jobs[i];
+            let (step, add, del) = (code / 81, code / 9 % 9, code % 9);
+            let g = gen_search::GraphSpec { n: 3, vals: vec![0, 1, 2], edges: gen_search::seq_graph(3, m, idx) };
+            let k = if directed { ["order pre fwd", "order post fwd", "search dfs fwd", "order pre tr"][kind] } else { ["order pre fwd", "order post fwd", "search dfs fwd", "search bfs fwd"][kind] };
+            let script = format!("{step}=c.{}.{}.9/d.{}.{}", add / 3, add % 3, del / 3, del % 3);
+            gen_live::live_case(fl, &format!("w{i}"), &g, k, root, None, &script, false)
+        });
+    }
+    extra.insert("rewire".into(), format!("{} (graph, kind, root, step, added edge, removed edge) combinations per flavour on 3 nodes", jobs.len()));
     write_outputs(out, &ctxs, extra);
 }
 
